@@ -976,10 +976,11 @@ class BaseProperty(base.BaseObject):
 
         :returns: Cloned odml tree to the root of the current document.
         """
-        export = self
-        if export.parent:
+        if self.parent:
             # Section.export_leaf will take care of the full export and
             # include the current Property.
-            export = export.parent.export_leaf()
+            return self.parent.export_leaf()
 
-        return export
+        # A Property without parent is the whole path; return a copy like
+        # in every other case, never the Property itself.
+        return self.clone(keep_id=True)
